@@ -5,6 +5,7 @@ package harness
 import (
 	"fmt"
 	mrand "math/rand/v2"
+	"reflect"
 	"strings"
 
 	lime "github.com/takenet/lime-go"
@@ -209,7 +210,13 @@ type Env struct {
 	Req   *lime.RequestCommand
 	Resp  *lime.ResponseCommand
 	Canon string
+	// Sem is the content read off the Go value itself (semString), not through the library's
+	// encoder: a comparison of two encodings says nothing when the encoder drops a field
+	Sem string
 }
+
+// semString renders a value structurally (see semTree).
+func semString(v interface{}) string { return fmt.Sprintf("%v", semTree(reflect.ValueOf(v))) }
 
 // Value returns the envelope as the value accepted by Transport.Send.
 func (e *Env) Value() interface{} {
@@ -249,6 +256,7 @@ func BuildEnvelope(spec EnvSpec, id string) *Env {
 		}
 		out.Msg = m
 		out.Canon = canonJSON(m)
+		out.Sem = semString(m)
 	case KNotification:
 		n := &lime.Notification{}
 		fillEnvelope(r, &n.Envelope, id)
@@ -263,6 +271,7 @@ func BuildEnvelope(spec EnvSpec, id string) *Env {
 		}
 		out.Not = n
 		out.Canon = canonJSON(n)
+		out.Sem = semString(n)
 	case KRequest:
 		c := &lime.RequestCommand{}
 		fillEnvelope(r, &c.Envelope, id)
@@ -283,6 +292,7 @@ func BuildEnvelope(spec EnvSpec, id string) *Env {
 		}
 		out.Req = c
 		out.Canon = canonJSON(c)
+		out.Sem = semString(c)
 	default:
 		c := &lime.ResponseCommand{}
 		fillEnvelope(r, &c.Envelope, id)
@@ -298,6 +308,7 @@ func BuildEnvelope(spec EnvSpec, id string) *Env {
 		}
 		out.Resp = c
 		out.Canon = canonJSON(c)
+		out.Sem = semString(c)
 	}
 	return out
 }
